@@ -14,6 +14,21 @@ use foca::{OwnedNotification, State};
 use rayon::prelude::*;
 use std::collections::BTreeMap;
 
+/// Event trace of ONE execution, for the evidence file (`trace_one`).
+pub static TRACE_ON: std::sync::atomic::AtomicBool = std::sync::atomic::AtomicBool::new(false);
+pub static TRACE: std::sync::Mutex<Vec<String>> = std::sync::Mutex::new(Vec::new());
+
+/// Run `f` (one execution of a scenario) with event tracing on; returns the
+/// first `keep` events of the explored window.
+pub fn trace_one(keep: usize, f: impl FnOnce()) -> Vec<String> {
+    TRACE.lock().unwrap().clear();
+    TRACE_ON.store(true, std::sync::atomic::Ordering::SeqCst);
+    f();
+    TRACE_ON.store(false, std::sync::atomic::Ordering::SeqCst);
+    let g = TRACE.lock().unwrap();
+    g[..g.len().min(keep)].to_vec()
+}
+
 #[derive(Clone, Copy, Debug, PartialEq, Eq, Hash)]
 pub enum ChoiceKind {
     Latency,
@@ -245,6 +260,17 @@ impl Sim {
         let evt = self.queue.remove(&key).unwrap();
         self.now = t;
         self.events_processed += 1;
+        if self.chooser.recording && TRACE_ON.load(std::sync::atomic::Ordering::Relaxed) {
+            let line = match &evt {
+                Evt::Deliver { to, from, bytes } => format!("t={t} node {to} <- node {from}: {}", show_dgram(&self.codec, bytes)),
+                Evt::Fire { node, timer } => format!("t={t} node {node} timer {}", timer.show()),
+                Evt::Action { node, code } => format!("t={t} node {node} scenario action {code}"),
+            };
+            let mut g = TRACE.lock().unwrap();
+            if g.len() < 400 {
+                g.push(line);
+            }
+        }
         match &evt {
             Evt::Deliver { to, from, bytes } => {
                 if self.nodes[*to as usize].is_some() {
